@@ -293,7 +293,8 @@ def _cmp(got, want, tol=1e-9):
     if len(got) != len(want):
         return -1
     for i, (g, w) in enumerate(zip(got, want)):
-        if g[:4] != w[:4] or abs(g[4] - w[4]) > tol * max(1.0, abs(w[4])) or abs(g[5] - w[5]) > tol * max(1.0, abs(w[5])):
+        # (written so that a NaN on either side is a mismatch: seeded change C09o reported depth NaN on zero-width bins)
+        if g[:4] != w[:4] or not abs(g[4] - w[4]) <= tol * max(1.0, abs(w[4])) or not abs(g[5] - w[5]) <= tol * max(1.0, abs(w[5])):
             return i
     return None
 
